@@ -257,6 +257,13 @@ def main(argv):
     scripts = [("single-small", script_single("small"), True)]
     if not quick:
         scripts.append(("single-autoflush", script_single("autoflush"), True))
+    # the same program padded so that its stream is an exact multiple of a block size
+    aligned = {}
+    for mult in ([1024] if quick else [512, 1024, 4096, 65536]):
+        al = rt.align_script(drv, script_single("small"), mult, chk.scratch, inline=True)
+        if al:
+            scripts.append(("single-aligned-%d" % mult, al[0], True))
+            aligned[str(mult)] = al[1]
     modes = ["direct", "tmp-tmpfs", "tmp-disk"]
     work = []
     exhaustive = {}
@@ -312,7 +319,7 @@ def main(argv):
         if res["viol"]:
             chk.report(res["viol"][0], res["viol"][1], res["viol"][2])
     chk.inconclusive += nofire
-    cov = {"evaluations": fired, "distinct_nontrivial": len(states),
+    cov = {"evaluations": fired, "distinct_nontrivial": len(states), "aligned_stream_sizes": aligned,
            "rule": "kill points = every (file system call, occurrence) of the strace baseline of each deterministic "
                    "single-thread script after the first runtime mkdir, in direct mode and with OVNI_TMPDIR on tmpfs and on "
                    "ext4 (exhaustive per script and mode), plus sampled points of a 3-thread script; a point counts when "
